@@ -28,6 +28,10 @@ class Opaque:
   def __repr__(self):
     return f'<Opaque {self.oid} at 0x7f00>'
 
+  def __deepcopy__(self, memo):
+    # a copy is a different object: gin must deliver constants / opaque values themselves
+    return Opaque(self.oid + 100000)
+
 
 class ProbeResult:
   """What a probe configurable returns."""
@@ -43,7 +47,7 @@ def canon(x):
   return json.dumps(x, sort_keys=True, separators=(',', ':'))
 
 
-def encode(v, gin=None):
+def encode(v, gin=None, session=None):
   cfgmod = gin.config if gin is not None else None
   if v is None:
     return None
@@ -63,14 +67,14 @@ def encode(v, gin=None):
   if t is bytes:
     return {'b': v.hex()}
   if t is list:
-    return {'l': [encode(x, gin) for x in v]}
+    return {'l': [encode(x, gin, session) for x in v]}
   if t is tuple:
-    return {'t': [encode(x, gin) for x in v]}
+    return {'t': [encode(x, gin, session) for x in v]}
   if t is dict:
     # dict equality ignores insertion order: canonical (sorted) item order
-    return {'d': sorted(([encode(k, gin), encode(x, gin)] for k, x in v.items()), key=lambda kv: canon(kv[0]))}
+    return {'d': sorted(([encode(k, gin, session), encode(x, gin, session)] for k, x in v.items()), key=lambda kv: canon(kv[0]))}
   if t in (set, frozenset):
-    return {'set': sorted((encode(x, gin) for x in v), key=canon)}
+    return {'set': sorted((encode(x, gin, session) for x in v), key=canon)}
   if t is Opaque:
     return {'o': v.oid}
   if t is ProbeResult:
@@ -87,7 +91,8 @@ def encode(v, gin=None):
       return {'unk': [v.selector, bool(v.evaluate)]}
   probe = getattr(v, '__probe_sel__', None)
   if probe is not None:
-    return {'fn': [probe, list(getattr(v, '__probe_scopes__', []))]}
+    scopes = session.identify(v) if session is not None else None
+    return {'fn': [probe, scopes if scopes is not None else []]}
   return {'o': 900000 + (id(v) % 1000), 'type': type(v).__name__}
 
 
@@ -117,6 +122,13 @@ def decode(j, gin=None):
       return Opaque.get(j['o'])
     if 'req' in j:
       return gin.config.REQUIRED
+    if 'ref' in j:
+      scopes, sel, ev = j['ref']
+      return gin.config.ConfigurableReference('/'.join(list(scopes) + [sel]), ev)
+    if 'macro' in j:
+      return gin.config.ConfigurableReference(j['macro'] + '/gin.macro', True)
+    if 'const' in j:
+      return gin.config.ConfigurableReference(j['const'] + '/gin.constant', True)
   raise ValueError(f'cannot decode {j!r}')
 
 
@@ -124,6 +136,8 @@ def to_literal(j):
   """Gin/Python literal text of an encoded value (reference forms included)."""
   if j is None or j is True or j is False or isinstance(j, int):
     return repr(j)
+  if '_text' in j:
+    return j['_text']
   if 's' in j:
     return repr(j['s'])
   if 'b' in j:
@@ -139,11 +153,11 @@ def to_literal(j):
     return '{' + ', '.join(f'{to_literal(k)}: {to_literal(v)}' for k, v in j['d']) + '}'
   if 'ref' in j:
     scopes, sel, ev = j['ref']
-    return '@' + '/'.join(list(scopes) + [sel]) + ('()' if ev else '')
+    return '@' + '/'.join(list(scopes) + [j.get('_spelled', sel)]) + ('()' if ev else '')
   if 'macro' in j:
     return '%' + j['macro']
   if 'const' in j:
-    return '%' + j['const']
+    return '%' + j.get('_abbr', j['const'])
   if 'unk' in j:
     return '@' + j['unk'][0] + ('()' if j['unk'][1] else '')
   raise ValueError(f'no literal for {j!r}')
